@@ -320,7 +320,7 @@ theorem applicable_is_cell {ps : List PA} (hu : UniqueKeys ps) (hz : NoPortZero 
     model has no blackhole chain for the listener's own port, see `virtualInboundPort`). -/
 theorem inbound_listener_enforces_per_client {ps : List PA} (hu : UniqueKeys ps) (hz : NoPortZero ps) (root : String)
     (w : Workload) (hs : w.svcNs = []) (svcPorts : List SvcPort) (declared : List Nat) (d : Nat) (hd : d > 0)
-    (_hown : d ≠ virtualInboundPort) (hU : NoUserTLSFor svcPorts d) (hD : DeclaredHaveConfigs svcPorts declared)
+    (_hown : d ∉ proxyOwnPorts) (hU : NoUserTLSFor svcPorts d) (hD : DeclaredHaveConfigs svcPorts declared)
     (hT : TargetsDistinct svcPorts) (hP : TargetsPos svcPorts) (hTD : TargetsDeclared svcPorts declared) (k : Client) :
     let sel := selectChains (applicable (inboundChains root ps w svcPorts declared) d) k.conn
     let mode := effectiveMode ps root w d
